@@ -21,7 +21,7 @@ import (
 	"strings"
 )
 
-var repo, outDir string
+var repo, outDir, forProp, declFile string
 var fset = token.NewFileSet()
 
 func parseFile(rel string) (*ast.File, error) {
@@ -108,6 +108,8 @@ func findFunc(f *ast.File, name string) *ast.FuncDecl {
 func main() {
 	flag.StringVar(&repo, "repo", "/repo", "repository root")
 	flag.StringVar(&outDir, "out", "", "output directory (lean/NV/Gen)")
+	flag.StringVar(&forProp, "for", "", "property id: run the expensive extractions only when needed")
+	flag.StringVar(&declFile, "declared", "/verif/extract/declared_fresh.json", "declared-fresh sites (C15)")
 	flag.Parse()
 	if outDir == "" {
 		fmt.Println("ERROR -out required")
@@ -118,6 +120,9 @@ func main() {
 	genProxyCFG()
 	genUpstream()
 	genDiscovery()
+	if forProp == "" || forProp == "C15" {
+		genLockset()
+	}
 }
 
 type lines struct{ b strings.Builder }
